@@ -11,7 +11,7 @@ EXPLANATION = ("The real KDTree runs on an (N,d) object array of symbolic real c
                "the definition through squared distances (polynomial obligations).")
 BOUNDS = {
     "quick": "d=1: N<=3 points with max_leaf_size in {1,2} and strategies balanced/fast/random, N=4 with leaf size 1 and "
-             "balanced; every k in 1..N+1; arbitrary radius>=0; d=2: N=2, leaf size 1, balanced",
+             "balanced; every k in 1..N+1; arbitrary radius>=0; d=2: N=2, leaf size 1, balanced; d=2, N=3 on a degenerate axis (all strategies); d=2 lattice points (x_i,i), x_i in {0,1}, N=6, queries from data points",
     "thorough": "d=1: N<=4 all options, N=5 balanced (depth); d=2: N<=3 all options, N=4 balanced (depth, per-query time-outs); "
                 "d=3: N=3 (depth)",
 }
@@ -35,7 +35,7 @@ def _pick(sx, name, allowed):
     return allowed[sx.choice(name, len(allowed))] if len(allowed) > 1 else allowed[0]
 
 
-def kd(d, Ns, leafs, strats, do_query=True, do_radius=True):
+def kd(d, Ns, leafs, strats, do_query=True, do_radius=True, degenerate_axis=False):
     def h(sx):
         import mouette.spatial.kdtree as K
         from mouette.geometry import AABB
@@ -54,6 +54,9 @@ def kd(d, Ns, leafs, strats, do_query=True, do_radius=True):
         strat = _pick(sx, "strategy", strats)
         coords = [[sx.real("p%d_%d" % (i, j)) for j in range(d)] for i in range(N)]
         q = [sx.real("q%d" % j) for j in range(d)]
+        if degenerate_axis:
+            # all points share their first coordinate: every split along axis 0 fails and the leaf is re-queued
+            sx.assume(symx.And(*[coords[i][0] == coords[0][0] for i in range(1, N)]))
         if sx.symbolic:
             pts = np.empty((N, d), dtype=object)
             for i in range(N):
@@ -111,17 +114,63 @@ def kd(d, Ns, leafs, strats, do_query=True, do_radius=True):
     return h
 
 
+def lattice(N, leafs, strats):
+    """points (x_i, i) with x_i a symbolic 0/1 value: mixes leaves whose split along x fails with leaves that split, at the same
+    level of the breadth-first construction; queries from every data point, every k, compared with brute force"""
+    def h(sx):
+        import mouette.spatial.kdtree as K
+        xs = [sx.choice("x%d" % i, 2) for i in range(N)]
+        leaf = _pick(sx, "leaf", leafs)
+        strat = _pick(sx, "strategy", strats)
+        qi = sx.choice("query_point", N)
+        pts = np.array([[float(x), float(i)] for i, x in enumerate(xs)])
+        rnd = shims.RandomStub(sx)
+        tag = " [2-D lattice, %s]" % strat
+        with shims.rebound(K, np=shims.ModuleProxy(np, dict(random=rnd))):
+            try:
+                tree = K.KDTree(pts, max_leaf_size=leaf, strategy=strat)
+            except Exception as e:
+                sx.check(False, "KDTree construction raised" + tag, detail=repr(e))
+                return
+        leaves = [n for n in tree.nodes if isinstance(n, K.KDTree.Leaf)]
+        stored = sorted(int(i) for lf in leaves for i in lf.points)
+        sx.check(stored == list(range(N)), "every input point is stored in exactly one leaf" + tag, detail=str(stored))
+        q = pts[qi]
+        d2 = [float((pts[i][0] - q[0]) ** 2 + (pts[i][1] - q[1]) ** 2) for i in range(N)]
+        for k in range(1, N + 1):
+            try:
+                res = [int(i) for i in tree.query(q, k)]
+            except Exception as e:
+                sx.check(False, "query raised" + tag, detail=repr(e))
+                return
+            ok = len(res) == k and len(set(res)) == k
+            sx.check(ok, "query returns exactly min(k,n) distinct indices" + tag, detail="k=%d res=%s xs=%s" % (k, res, xs))
+            if ok:
+                sx.check(sorted(d2[i] for i in res) == sorted(d2)[:k] and all(d2[a] <= d2[b] for a, b in zip(res, res[1:])),
+                         "query returns the k smallest distances in non-decreasing order" + tag, detail="k=%d res=%s xs=%s" % (k, res, xs))
+        for r2 in sorted(set(d2)):
+            got = sorted(int(i) for i in tree.query_radius(q, r2 ** 0.5))
+            sx.check(got == [i for i in range(N) if d2[i] <= r2 + 1e-12], "query_radius returns exactly the points within the radius" + tag,
+                     detail="r^2=%s got=%s xs=%s" % (r2, got, xs))
+    return h
+
+
 def obligations(tier):
     q = tier == "quick"
     obs = []
 
-    def add(name, d, Ns, leafs, strats, split, required=True, wall=8.0):
+    def add(name, d, Ns, leafs, strats, split, required=True, wall=30.0):
         obs.append(Ob(name + "-knn", kd(d, Ns, leafs, strats, do_query=True, do_radius=False), covers=COVERS, split=split,
                       path_wall_s=wall, required=required, budget_is_violation=True,
                       note="d=%d N in %s leaf sizes %s strategies %s: build, leaf partition, k-nearest query" % (d, Ns, leafs, strats)))
         obs.append(Ob(name + "-radius", kd(d, Ns, leafs, strats, do_query=False, do_radius=True), covers=COVERS, split=split,
                       path_wall_s=wall, required=required, budget_is_violation=True,
                       note="d=%d N in %s leaf sizes %s strategies %s: build, leaf partition, radius query" % (d, Ns, leafs, strats)))
+    obs.append(Ob("kd-2d-degenerate-axis", kd(2, [3], [1], STRATS, do_query=True, do_radius=False, degenerate_axis=True), covers=COVERS,
+                  split=7, path_wall_s=30.0, budget_is_violation=True,
+                  note="d=2, N=3, all points on a vertical line (failed splits are re-queued): build, leaf partition, k-nearest query"))
+    obs.append(Ob("kd-2d-lattice", lattice(6 if q else 7, [1, 2], ["balanced", "fast"]), covers=COVERS, split=8, path_wall_s=30.0,
+                  budget_is_violation=True, note="2-D points (x_i, i) with symbolic x_i in {0,1}: queries from every data point vs brute force"))
     if q:
         add("kd-1d-n3", 1, [1, 2, 3], [1, 2], STRATS, 7)
         add("kd-1d-n4", 1, [4], [1], ["balanced"], 7)
